@@ -14,7 +14,7 @@ TECHNIQUE = ("bounded-exhaustive enumeration of launch/activity interleavings on
 RULE = ("every multiset of <=U units on grid G_T: kernel pair (stream 7|9, launch start l, kernel start a>=l), copy "
         "pair (2 copy types + memset, bandwidth 0.5|1.25, length 0|1|2; a second activity name of the first copy type), launch without activity, activity without "
         "launch; a larger kernel-only slice; ranks requested in {None,[0],[1],[0,1]} (rank 1 = fixed world); "
-        "epoch 1.7e15; session slice (the same object ran a critical-path analysis of one launch window | decode_symbol_ids | the other summary getters before); N1: stable, all-reversed and every single tie group permuted; the counter file is generated "
+        "epoch 1.7e15; single-unit worlds also with the second rank starting 50 earlier / later than the first; session slice (the same object ran a critical-path analysis of one launch window | decode_symbol_ids | the other summary getters before); N1: stable, all-reversed and every single tie group permuted; the counter file is generated "
         "and read back for every world. non-trivial = some launch and some activity start share a timestamp on one "
         "stream, or copies of one type overlap")
 ASSUMPTIONS = [
@@ -52,6 +52,11 @@ def worlds(tier: str, stats: Dict[str, Any]) -> Iterator[Any]:
         for combo in itertools.combinations_with_replacement(allu, n):
             stats["transitions"] += 1
             yield dict(units=[list(u) for u in combo])
+            if n == 1 and combo[0][0] in "KY":
+                # the second rank starts recording earlier / later than the first one
+                for sh in (-50, 50):
+                    stats["transitions"] += 1
+                    yield dict(units=[list(u) for u in combo], rank1_shift=sh)
             if n >= 2:
                 stats["transitions"] += 1
                 yield dict(units=[list(u) for u in combo], file_order="reversed")
@@ -159,9 +164,12 @@ def check(world) -> Dict[str, Any]:
 
     viol: List[Any] = []
     evs0, evs1 = build_world(world), build(RANK1)
+    sh = world.get("rank1_shift", 0)
+    for e in evs1:
+        e["ts"] += sh
     ranks = {0: evs0, 1: evs1}
     exp = {r: expected(e) for r, e in ranks.items()}
-    m = E0 - 1
+    m = E0 - 1 + min(sh, 0)
     ta, d = htaenv.load_world(ranks, keep=True)
     if world.get("prior"):
         htaenv.prior_session(ta, world["prior"])
